@@ -72,6 +72,9 @@ func propsOf(fi *FuncInfo, o *Obligation) []string {
 	for t := range funcTags(fi) {
 		set[t] = true
 	}
+	if o.Kind == "iofail" || strings.HasPrefix(o.Kind, "iofail-keep/") {
+		set["C16"] = true
+	}
 	if o.Kind == "lemma" {
 		for _, t := range o.Tags {
 			set[t] = true
@@ -425,6 +428,9 @@ func cmdCheck(args []string) {
 				}
 			}
 			return false
+		}
+		if id == "C16" && ioReporting(fi) {
+			return true
 		}
 		if id == "C18" {
 			return true
